@@ -262,6 +262,19 @@ func renderFile(pkgName string, uses map[string]bool, chunks []string, from stri
 // spaces before line comments, a trailing comment without newline handling.
 func unformat(src string) string {
 	lines := strings.Split(src, "\n")
+	// the specs of a parenthesised import group in reverse (not gofmt's) order
+	for i := 0; i < len(lines); i++ {
+		if lines[i] == "import (" {
+			j := i + 1
+			for j < len(lines) && lines[j] != ")" {
+				j++
+			}
+			for a, b := i+1, j-1; a < b; a, b = a+1, b-1 {
+				lines[a], lines[b] = lines[b], lines[a]
+			}
+			break
+		}
+	}
 	var out []string
 	for i, l := range lines {
 		if strings.HasPrefix(l, "\t") {
